@@ -18,7 +18,9 @@ SEPS = ":/#"
 NAMESPACES = ["http://example.org/", "http://example.org/people/", "http://example.org/people/staff#", "https://data.example.com/id/",
               "https://a.org/", "https://b.org/", "http://x.io/", "urn:isbn:", "http://example.org/p",
               # hosts that share leading characters (the common prefix ends inside the host: cutting back leaves the bare scheme), one-letter scheme
-              "http://example.com/", "https://database.example.com/", "https://data.example.org/", "x:", "x:it"]
+              "http://example.com/", "https://database.example.com/", "https://data.example.org/", "x:", "x:it",
+              # the argument space of _determine_suitable_iri_pattern itself: stems around the length limits 3 and 9 and the http test
+              "a:", "ab:", "urn:", "http:x/", "httpx://h/", "https://a", "http://a/", "ht://", "x#"]
 
 
 def gen_iri_graph(rng):
